@@ -330,9 +330,48 @@ def h_aux_fci(env, key, mapping, utd):
         if not spec["uhf"]:
             e_fci = float(FCISolver(m).simulate())
     env.check_true(abs(e_ref - e_mf) < 1e-6, f"<ref|H|ref> == mean-field energy of PySCF [{key}, {mapping}, utd={utd}]", detail=f"{e_ref} vs {e_mf}")
+    if sp == ne % 2 and not spec["uhf"]:
+        # lowest-spin reference: leaving the optional spin argument at its default prepares the same determinant
+        with shim.concrete_mode():
+            circ_d = get_reference_circuit(n, ne, mapping, up_then_down=utd)
+        env.check_same(sorted(g.target[0] for g in circ_d._gates), sorted(g.target[0] for g in circ._gates),
+                       f"get_reference_circuit with the spin left at its default == the one with spin={sp} [{key}, {mapping}, utd={utd}]")
     if e_fci is not None:
         env.check_true(abs(e_sector - e_fci) < 1e-6, f"lowest (N, Sz)-sector eigenvalue == FCISolver energy [{key}, {mapping}, utd={utd}]",
                        detail=f"{e_sector} vs {e_fci}")
+
+
+def h_aux_rotation(env, key):
+    """AUXILIARY concrete shape (no solver role): the documented optional mo_coeff= argument. Rotating two ACTIVE orbitals among
+    themselves changes the integrals but not the spectrum: the lowest (N, Sz)-sector eigenvalue of the Jordan-Wigner matrix built
+    from the rotated coefficients equals the one of the stored coefficients (1e-8), and differs from it in matrix elements."""
+    import math
+    from tangelo import SecondQuantizedMolecule
+    from tangelo.toolboxes.qubit_mappings.mapping_transform import fermion_to_qubit_mapping
+    from openfermion import get_sparse_operator
+    spec = AUX_MOLS[key]
+    with shim.concrete_mode():
+        m = SecondQuantizedMolecule(_XYZ[spec["xyz"]], q=spec["q"], spin=spec["spin"], basis="sto-3g", frozen_orbitals=spec["frozen"], uhf=False)
+        n, ne, sp = m.n_active_sos, m.n_active_electrons, m.active_spin
+        na, nb = (ne + sp) // 2, (ne - sp) // 2
+        idxs = [int("".join(map(str, f)), 2) for f in itertools.product((0, 1), repeat=n) if sum(f[0::2]) == na and sum(f[1::2]) == nb]
+
+        def lowest(mo):
+            H = m._get_fermionic_hamiltonian(mo) if mo is not None else m.fermionic_hamiltonian
+            M = get_sparse_operator(fermion_to_qubit_mapping(H, "jw", n_spinorbitals=n), n_qubits=n).toarray()
+            return float(np.linalg.eigvalsh(M[np.ix_(idxs, idxs)])[0]), M
+        e0, M0 = lowest(None)
+        C = np.array(m.mo_coeff, dtype=float).copy()
+        i, j = m.active_mos[0], m.active_mos[-1]
+        th = 0.37
+        ci, cj = C[:, i].copy(), C[:, j].copy()
+        C[:, i], C[:, j] = math.cos(th) * ci + math.sin(th) * cj, -math.sin(th) * ci + math.cos(th) * cj
+        stored = np.array(m.mo_coeff, dtype=float).copy()
+        e1, M1 = lowest(C)
+        e2, _ = lowest(None)
+    env.check_true(abs(e1 - e0) < 1e-8, f"lowest sector eigenvalue is invariant under a rotation of active orbitals {i},{j} passed as mo_coeff= [{key}]", detail=f"{e1} vs {e0}")
+    env.check_true(float(np.abs(M1 - M0).max()) > 1e-6, "the rotated coefficients were used (matrix elements differ)")
+    env.check_true(abs(e2 - e0) < 1e-12 and float(np.abs(np.array(m.mo_coeff, dtype=float) - stored).max()) == 0.0, "the molecule's own coefficients are untouched by the call")
 
 
 def shapes(tier, seed):
@@ -362,6 +401,8 @@ def shapes(tier, seed):
             if key.startswith("LiH") and (mp, utd) != ("jw", False):
                 continue
             out.append(Shape(f"aux/fci_sector/{key}/{mp}/utd={int(utd)}", h_aux_fci, dict(key=key, mapping=mp, utd=utd), modules=()))
+    for key in ("H4_interior_f1", "H4+_doublet_fo0", "LiH_triplet_fo0"):
+        out.append(Shape(f"aux/rotation/{key}", h_aux_rotation, dict(key=key), modules=()))
     refs = [(2, 2, 0, None), (3, 4, 0, [0]), (3, 2, 0, [2]), (3, 2, 0, [1])]
     if tier == "thorough":
         refs += [(3, 3, 1, [0]), (3, 2, 0, None), (4, 4, 0, [0, 3])]
